@@ -206,7 +206,7 @@ class ContractEval:
             try:
                 lvs = self.ev.lvalues(a, env, old)
             except SpecError as ex:
-                if "no field" not in str(ex):
+                if "no field" not in str(ex) and "nil deref" not in str(ex):
                     raise
                 continue
             for lv in lvs:
@@ -221,8 +221,8 @@ class ContractEval:
             try:
                 st.assume(self.holds(en, env2, st, old))
             except SpecError as ex:
-                if "no field" not in str(ex):
-                    raise   # a clause about state that does not exist gives the caller nothing to assume
+                if "no field" not in str(ex) and "different sorts" not in str(ex) and "width mismatch" not in str(ex):
+                    raise   # a clause about state that does not exist (or has another type) gives the caller nothing to assume
         return [(st, val)]
 
     def fresh_result(self, eng, tid, nm):
